@@ -134,6 +134,19 @@ def base_isa(consts):
                  'instructions': ['ldi @OP(0), @OP(1)', 'nop']},
                 {'operands': {'count': 2, 'operand_sets': {'list': ['regs', 'mem']}},
                  'instructions': ['ldm @OP(0), @OP(1)', 'ldw @REG(0), @ARG(1)']}],
+        # variants told apart by the operand-matching rules of instruction variants: specific operands, an `empty`
+        # operand (counts towards `count`, consumes no text), different operand counts
+        'mv': [{'operands': {'count': 2, 'specific_operands': {'impl': {'list': {
+                    'n': {'type': 'numeric', 'argument': arg(8, True)}, 'e': {'type': 'empty'}}}}},
+                'instructions': ['ldi ra, @ARG(0)']},
+               {'operands': {'count': 1, 'operand_sets': {'list': ['regs']}}, 'instructions': ['add @REG(0), @REG(0)', 'nop']},
+               {'operands': {'count': 2, 'operand_sets': {'list': ['regs', 'imm8']}}, 'instructions': ['ldi @REG(0), @ARG(1)', 'n4']},
+               {'instructions': ['nop', 'nop']}],
+        'sp': [{'operands': {'count': 1, 'specific_operands': {
+                    'acc': {'list': {'r': {'type': 'register', 'register': 'ra'}}},
+                    'mem': {'list': {'m': {'type': 'indirect_numeric', 'argument': arg(16, True)}}}}},
+                'instructions': ['ldw rb, 7']},
+               {'operands': {'count': 1, 'operand_sets': {'list': ['imm16']}}, 'instructions': ['ldw ra, @ARG(0)']}],
         'badarg': [{'operands': {'count': 1, 'operand_sets': {'list': ['regs']}}, 'instructions': ['ldi ra, @ARG(0)']}],
         'badreg': [{'operands': {'count': 1, 'operand_sets': {'list': ['imm8']}}, 'instructions': ['ldi @REG(0), 1']}],
         'badidx': [{'operands': {'count': 1, 'operand_sets': {'list': ['imm8']}}, 'instructions': ['ldi ra, @ARG(1)']}],
@@ -156,6 +169,13 @@ CATALOGUE = [
     ('full-operand-text', 'swp ra, rb', 'add ra, rb\nadd rb, ra\nadd ra, rb', {}, ['ok/ok']),
     ('variant-1', 'ld2 ra, v1', 'ldi ra, v1\nnop', {'v1': vrange(8)}, ['ok/ok', 'rejected/rejected']),
     ('variant-2', 'ld2 rb, [v1]', 'ldm rb, [v1]\nldw rb, v1', {'v1': vrange(16)}, ['ok/ok', 'rejected/rejected']),
+    ('variant-with-empty-operand', 'mv v1', 'ldi ra, v1', {'v1': vrange(8)}, ['ok/ok', 'rejected/rejected']),
+    ('variant-by-count-1', 'mv rb', 'add rb, rb\nnop', {}, ['ok/ok']),
+    ('variant-by-count-2', 'mv rb, v1', 'ldi rb, v1\nn4', {'v1': vrange(8)}, ['ok/ok', 'rejected/rejected']),
+    ('variant-by-count-0', 'mv', 'nop\nnop', {}, ['ok/ok']),
+    ('variant-specific-register', 'sp ra', 'ldw rb, 7', {}, ['ok/ok']),
+    ('variant-specific-indirect', 'sp [v1]', 'ldw rb, 7', {'v1': vrange(16)}, ['ok/ok']),
+    ('variant-after-specific', 'sp v1', 'ldw ra, v1', {'v1': vrange(16)}, ['ok/ok', 'rejected/rejected']),
     ('two-invocations', 'a1: jj a1\nnn\na2: jj a1', 'a1: nop\njr a1\nn4\nnop\na2: nop\njr a1', {}, ['ok/ok']),
     ('label-between-macros', 'nn\nmid: jj mid\nldi2 ra, LSB(mid)', 'n4\nnop\nmid: nop\njr mid\nldi ra, LSB(mid)\nldi ra, LSB(mid) + 1',
      {}, ['ok/ok', 'rejected/rejected']),
